@@ -293,6 +293,8 @@ pub fn c07_cases(thorough: bool) -> Vec<BatchCase> {
     let o = |s: &Shape| Inst { shape: s.clone(), kind: "opaque".into() };
     let mut v = vec![
         BatchCase { name: "single_honest".into(), instances: vec![h(&one)] },
+        BatchCase { name: "honest_with_identity_commitment".into(), instances: vec![h(&Shape::new("identity_commitment", &[Commit, CommitZero, AllocMul, Con, ConCommitted], &[])), h(&one)] },
+        BatchCase { name: "single_honest_only_identity_commitments".into(), instances: vec![h(&Shape::new("only_identity_commitments", &[CommitZero, CommitZero, AllocMul, Con], &[]))] },
         BatchCase { name: "two_honest_mixed_sizes".into(), instances: vec![h(&two), h(&one)] },
         BatchCase { name: "three_honest_mixed_phases".into(), instances: vec![h(&zero), h(&twop), h(&three)] },
         BatchCase { name: "phase2_growth_second".into(), instances: vec![h(&two), h(&two_grow)] },
